@@ -22,14 +22,19 @@ RULE = ('cases = documents of 1-14 items drawn from: frame lines (image icrs fk5
         'frames, global lines, comments (incl. comments that look like frames/globals/regions), 8 shapes + multi-radius '
         'annulus/ellipse/box, unsupported shapes, mixed-unit regions, composite blocks; coordinates bare/d/r/i/a:b:c/hms/dms, '
         'sizes bare/"/\'/d/r/i, separators newline/;/parentheses/commas/spaces, upper/lower case, sign +/-/none, property '
-        'lists (flags, include, text in {} "" \'\', tags, colour/width/font/dash noise); matrix lane = every shape x frame; '
+        'lists (flags, include, text in {} "" \'\', tags, colour/width/font/dash noise, bare source/background words); matrix lane = '
+        'every shape x frame walked systematically; edge lane = six hostile constructs; '
         'non-trivial = >=1 judged comparison; distinct = distinct sub-seeds')
 ASSUMPTIONS = [
     'astropy Angle/SkyCoord/units are trusted for building the comparison values (degrees) from the parsed objects',
     'subset boundaries kept out of the grammar: box/ellipse always carry an angle; no trailing-dot or exponent numbers; rotation '
     'angles are bare numbers; the "# text(x,y)" / "# composite(x,y,a)" forms are written lower-case, compact (no blanks inside '
     'the parentheses) and at the start of a physical line; comments never contain ";"; tags never contain ";"; duplicate keys '
-    'do not occur on one line; text never has leading/trailing blanks',
+    'do not occur on one line; no blanks around "="; text never has leading/trailing blanks or braces inside',
+    'hostile-but-valid constructs that the unchanged reader gets wrong are generated only by the "edge" lane, one per document '
+    '(numeric-looking text, a text delimiter character at the end of a text written in another delimiter, upper-case TEXT= with '
+    '";" inside, global include=0, an unsupported shape or a text containing "||" as last composite member), so that every '
+    'other lane stays silent and each defect keeps its own mechanism key',
     'an unsupported frame makes the following region lines frameless until the next supported frame line (DESIGN.md C10)',
     'successive global lines accumulate key-wise (DS9 behaviour)',
     'a flag no level defines may be absent or carry its DS9 default; the ecliptic frame may map to any astropy *ecliptic frame',
@@ -48,6 +53,9 @@ FLAG_DEFAULT = {'select': 1, 'highlite': 1, 'fixed': 0, 'edit': 1, 'move': 1, 'd
 EDGES = ['numeric-text', 'nested-delims', 'upper-text-semicolon', 'global-include-0', 'composite-last-unsupported',
          'composite-last-text-bars']
 EPS = 2.0 ** -52
+# core.py:26-34 is a module-level dict evaluated at import (before line monitoring starts); every one of its keys is looked
+# up by read.py:598-599 for the eight frame names below and the result is judged by 'judged:frame' (see required_counters)
+ANCHORS_NOT_DRIVEN = ('frame name mapping to astropy frames',)
 
 # mechanism keys of specific, recognised deviations
 K_NUMTEXT = 'text-numeric-coerced'
@@ -71,7 +79,10 @@ def required_counters(tier):
             'judged:angle': 60, 'judged:include': 400, 'judged:flag': 300, 'judged:text': 60, 'judged:tag': 60,
             'judged:frameless-no-region': 15, 'judged:skip-warns': 30, 'judged:neighbours-unaffected': 30,
             'judged:multi-annulus': 30, 'seen:colon-hours': 20, 'seen:colon-degrees-lon': 10, 'seen:excluded': 50,
-            'seen:composite-member': 20}
+            'seen:composite-member': 20, 'judged:skip-no-region': 30,
+            **{'frame:' + f: 20 for f in FRAMES}, **{'shape:' + sh.rstrip('+'): 40 for sh in SHAPES},
+            **{'seen:' + n: 20 for n in ('coord-bare', 'coord-d', 'coord-r', 'hms', 'dms', 'colon-degrees-lat', 'size-bare',
+                                        'size-arcsec', 'size-arcmin', 'size-d', 'size-r', 'pixel-i-suffix')}}
 
 
 # ---------------------------------------------------------------------------
@@ -723,6 +734,8 @@ def m_coord(t, frame, is_lon, seen):
     if frame == 'image':
         if t['n'] == 'num' and t['suf'] in ('', 'i'):
             v = float(t_frac(t))
+            if t['suf']:
+                seen.add('pixel-i-suffix')
             return v - 1.0, abs(v) + 1.0            # 1-based -> 0-based
         raise Mixed()
     if t['n'] == 'num':
@@ -1048,7 +1061,7 @@ def classify_value(what, e, got, exp, j):
     return f'angle-{rk}' if rk else 'angle-value'
 
 
-def compare_region(obs, e, reg, case, doc_edge):
+def compare_region(obs, e, reg, case):
     """judge one parsed region against its expected descriptor."""
     try:
         g = observe(reg)
@@ -1158,7 +1171,7 @@ def compare_region(obs, e, reg, case, doc_edge):
                   f"{e['cls']}: tags {gtags!r}, expected {e['tags']!r}", 'tag', text=case.get('_text'))
 
 
-def count_key(items, status, exp, regs, doc_edge):
+def count_key(items, status, exp, regs):
     ecls = [e['cls'] for e in exp]
     gcls = [type(r).__name__ for r in regs]
     i = 0
@@ -1183,7 +1196,7 @@ def count_key(items, status, exp, regs, doc_edge):
 
 
 def generate(rng, tier, shard, nshards):
-    n = 2000 if tier == 'quick' else 30000
+    n = 1200 if tier == 'quick' else 30000
     lanes = ['doc'] * 8 + ['matrix'] * 4 + ['skips'] * 3 + ['meta'] * 2 + ['composite'] * 2 + ['edge']
     nm = ne = 0
     for i in range(n):
@@ -1210,8 +1223,7 @@ def run_case(case, obs):
     exp, status, ctx, seen = model(items)
     text = render(items)
     case = dict(case, _text=text)
-    edge = case.get('edge')
-    regs, warns = parse(text)
+    regs, _ = parse(text)
     nviol0 = sum(obs.violation_counts.values())
     for s in seen:
         obs.count('seen:' + s)
@@ -1228,7 +1240,7 @@ def run_case(case, obs):
     gcls = [type(r).__name__ for r in regs]
     n_frameless = status.count('frameless')
     if len(regs) != len(exp):
-        obs.violation(count_key(items, status, exp, regs, edge),
+        obs.violation(count_key(items, status, exp, regs),
                       f'{len(regs)} regions parsed, the document defines {len(exp)}: got {gcls}, expected {ecls}', text=text,
                       status=status)
     else:
@@ -1236,7 +1248,7 @@ def run_case(case, obs):
         if n_frameless:
             obs.ok(n_frameless, 'frameless-no-region')
         for e, r in zip(exp, regs):
-            compare_region(obs, e, r, case, edge)
+            compare_region(obs, e, r, case)
 
     # 2. skipped items: warn, and leave the neighbours as in the document without them
     skipped = [i for i, s in enumerate(status) if s in ('skip-warn', 'skip-silent')]
